@@ -363,8 +363,10 @@ def rule_cmp_decision(ctx: Ctx) -> None:
                 env[a.targets[0].id] = tb2.formula(a.value, env)
         f = tb2.formula(top.test, env)
         pair = [k for k, a in tb2.atoms.items() if a.pair is not None]
-        else_false = bool(top.orelse) and any(isinstance(r, ast.Return) and isinstance(r.value, ast.Constant) and r.value.value is False for r in ast.walk(top.orelse[0]))
-        okp = bool(pair) and all(f(a) == all(a[k] for k in pair) for a in tb2.rows()) and else_false
+        in_body = any(x is w for b_ in top.body for x in ast.walk(b_))
+        other = top.orelse if in_body else top.body
+        else_false = bool(other) and any(isinstance(r, ast.Return) and isinstance(r.value, ast.Constant) and r.value.value is False for b_ in other for r in ast.walk(b_))
+        okp = bool(pair) and all((f(a) if in_body else not f(a)) == all(a[k] for k in pair) for a in tb2.rows()) and else_false
         if okp:
             ctx.ok("cmp.decision", m, top.test, what="direct(): walk entered only when register counts and node counts agree, else False")
         else:
@@ -392,6 +394,9 @@ def rule_cmp_walk_edge(ctx: Ctx) -> None:
     w = next((x for x in ast.walk(fn) if isinstance(x, ast.While)), None)
     if w is None:
         raise AnalysisError("direct(): wire walk not found")
+    # the walked register's key: a local built as an f-string of the Input operation's reg_type and register
+    regnames = {a.targets[0].id for a in ast.walk(fn) if isinstance(a, ast.Assign) and len(a.targets) == 1 and isinstance(a.targets[0], ast.Name)
+                and isinstance(a.value, ast.JoinedStr) and "reg_type" in norm(a.value) and "register" in norm(a.value)}
     comps = [a for a in w.body if isinstance(a, ast.Assign) and isinstance(a.value, ast.ListComp)]
     steps = [a for a in w.body if isinstance(a, ast.Assign) and isinstance(a.value, ast.Subscript) and isinstance(a.value.value, ast.Subscript)]
     if len(comps) != 2 or len(steps) < 2:
@@ -399,7 +404,8 @@ def rule_cmp_walk_edge(ctx: Ctx) -> None:
     for c in comps:
         g = c.value.generators[0]
         keyed = any(isinstance(t, ast.Compare) and len(t.ops) == 1 and isinstance(t.ops[0], ast.Eq) and
-                    {norm(t.left), norm(t.comparators[0])} == {f"{norm(g.target)}[2]", "reg"} for t in g.ifs)
+                    f"{norm(g.target)}[2]" in (norm(t.left), norm(t.comparators[0])) and any(
+                        isinstance(x_, ast.Name) and x_.id in regnames for x_ in (t.left, t.comparators[0])) for t in g.ifs)
         src_ok = any(isinstance(x, ast.Call) and call_attr(x) == "out_edges" for x in ast.walk(g.iter))
         if keyed and src_ok and len(g.ifs) == 1:
             ctx.ok("cmp.walk-edge", m, c, what="out-edge selected by key == reg")
